@@ -68,13 +68,13 @@
 use std::path::Path;
 use std::sync::Arc;
 
+#[cfg(feature = "verif-hooks")]
+use self::verif::sync::Mutex;
 use mdk_storage_traits::{Backend, GroupId, MdkStorageError, MdkStorageProvider};
 use openmls_traits::storage::{StorageProvider, traits};
 use rusqlite::Connection;
 #[cfg(not(feature = "verif-hooks"))]
 use std::sync::Mutex;
-#[cfg(feature = "verif-hooks")]
-use self::verif::sync::Mutex;
 
 mod db;
 pub mod encryption;
